@@ -224,7 +224,20 @@ def queries():
         if impl == 31:
             units.append("src/int/i32_div32.c")
         # i15 without the hook: no verdict in 900 s; with it only rsa_i15_pub.c keeps its (symbolic) alignment test
-        for al in ((0, 1) if impl == 15 else (None,)):
+        if impl == 15:
+            # rsa_i15_pub.c keeps its own symbolic alignment test: the pub/priv pair gets no verdict in 900 s even with the
+            # hook on the private side.  Instead: real br_rsa_i15_private incl. real modpow vs explicit integer arithmetic.
+            punits = [u for u in units if not u.endswith("rsa_i15_pub.c")]
+            for al in (0, 1):
+                for (nm, kd, tier) in (("n65", ["-DC10_P=13", "-DC10_Q=5", "-DC10_NBITS=7", "-DC10_IQ=8", "-DC10_E=5", "-DC10_DP=5", "-DC10_DQ=1"], "quick"),
+                                       ("n143", ["-DC10_P=11", "-DC10_Q=13", "-DC10_NBITS=8", "-DC10_IQ=6", "-DC10_E=7", "-DC10_DP=3", "-DC10_DQ=7"], "quick"),
+                                       ("n60491", ["-DC10_P=241", "-DC10_Q=251", "-DC10_NBITS=16", "-DC10_IQ=217", "-DC10_E=7", "-DC10_DP=103", "-DC10_DQ=143"], "thorough")):
+                    qs.append(Q("rsainv-i15-a%d-%s-priv_vs_integer" % (al, nm), "C10_privgate.c", units=punits,
+                                defs=["-DC10_IMPL=15", "-DBR_MAX_RSA_SIZE=64", "-DC10_REAL_MODPOW=1", "-DC10_ORDER=2", "-DBR_VERIF_RSA_I15_ALIGN=%d" % al] + kd,
+                                unwind=34, backend="kissat", tier=tier, timeout=900 if tier == "thorough" else 240,
+                                desc="br_rsa_i15_private with the real arithmetic incl. modpow: result^e mod n == x (explicit integer reference) for every x < n, toy key %s; work-area alignment case %d fixed through the hook; BR_MAX_RSA_SIZE=64" % (nm, al)))
+            continue
+        for al in (None,):
             hook = [] if al is None else ["-DBR_VERIF_RSA_I15_ALIGN=%d" % al]
             tag = "" if al is None else "-a%d" % al
             for order in (0, 1):
